@@ -808,6 +808,35 @@ class Interp:
                             continue
                     out.append((self.method_call(recv, e.func.attr, pos, kw, e, p), p))
             return out
+        # a module-level helper of the module being interpreted (not a class / builtin): interpret its body
+        callee = None
+        if isinstance(e.func, ast.Name) and getattr(self, "_depth", 0) < 3:
+            cand = self.module.functions.get(e.func.id)
+            if cand is not None and cand.cls is None and cand.parent is None and not cand.is_generator and e.func.id not in self.records and e.func.id not in self.enums:
+                callee = cand
+        if callee is not None:
+            self._depth = getattr(self, "_depth", 0) + 1
+            try:
+                for pos, kw, p in eval_args(path):
+                    a = callee.node.args
+                    params = [x.arg for x in a.posonlyargs + a.args]
+                    args = dict(zip(params, pos))
+                    args.update(kw)
+                    from .astutil import default_args as _da
+                    for k_, d_ in _da(callee.node).items():
+                        if k_ not in args:
+                            args[k_] = Const(d_.value) if isinstance(d_, ast.Constant) and (not isinstance(d_.value, int) or isinstance(d_.value, bool)) else (IntIv(d_.value, d_.value) if isinstance(d_, ast.Constant) else Opaque("default"))
+                    if set(params) - set(args):
+                        out.append((self.func_call(fname, pos, kw, e, p), p))
+                        continue
+                    for o in self.run(callee, args, callee.module):
+                        if o.kind == "return":
+                            out.append((o.value, Path(p.env, p.conds + o.path.conds)))
+                        else:
+                            out.append((Opaque(f"raises in {callee.name}"), p))
+            finally:
+                self._depth -= 1
+            return out
         for pos, kw, p in eval_args(path):
             out.append((self.func_call(fname, pos, kw, e, p), p))
         return out
